@@ -212,6 +212,52 @@ Section Decision.
     exists k1, pl1, pl2, kb1, kb2. repeat split; assumption.
   Qed.
 
+  (* ---------------- the TLS caller ---------------- *)
+  Lemma tls_accept_sound x spki expected p :
+    tls_accept on_curve verify x spki expected = Accept p ->
+    exists kb sg k,
+      x = TlsExt kb sg /\ decode_pubkey kb = KeyOk k /\
+      verify k (TLS_PREFIX ++ spki) sg = true /\
+      p = peer_id_of_key k /\ (expected = None \/ expected = Some p).
+  Proof.
+    unfold tls_accept. intros A. apply check_dialed_accept in A as [A D].
+    destruct x as [| | |kb sg]; cbn [tls_verify] in A; try discriminate.
+    destruct (decode_pubkey kb) as [k|e] eqn:DK; [|discriminate].
+    destruct (verify k (TLS_PREFIX ++ spki) sg) eqn:V; [|discriminate].
+    injection A as <-. exists kb, sg, k. auto.
+  Qed.
+
+  Lemma tls_accept_complete kb sg k spki expected :
+    decode_pubkey kb = KeyOk k -> verify k (TLS_PREFIX ++ spki) sg = true ->
+    (expected = None \/ expected = Some (peer_id_of_key k)) ->
+    tls_accept on_curve verify (TlsExt kb sg) spki expected = Accept (peer_id_of_key k).
+  Proof.
+    intros DK V D. unfold tls_accept. cbn [tls_verify]. rewrite DK, V.
+    destruct D as [-> | ->]; cbn [check_dialed]; [reflexivity|]. rewrite pid_eqb_refl. reflexivity.
+  Qed.
+
+  Lemma tls_reject_mismatch x spki p q :
+    tls_verify on_curve verify x spki = Accept p -> q <> p ->
+    tls_accept on_curve verify x spki (Some q) = Reject EMismatch.
+  Proof.
+    intros A N. unfold tls_accept. rewrite A. cbn [check_dialed]. rewrite (pid_eqb_neq _ _ N). reflexivity.
+  Qed.
+
+  (* an extension made for one certificate key is refused in a certificate with another key *)
+  Lemma tls_binding :
+    (forall pk m m' sg, verify pk m sg = true -> verify pk m' sg = true -> m = m') ->
+    forall x spki spki' e' p',
+      tls_accept on_curve verify x spki' e' = Accept p' -> spki <> spki' ->
+      forall e, tls_accept on_curve verify x spki e = Reject ETlsIssuer.
+  Proof.
+    intros SM x spki spki' e' p' A N e.
+    apply tls_accept_sound in A as (kb & sg & k & -> & DK & V & _ & _).
+    unfold tls_accept. cbn [tls_verify]. rewrite DK.
+    destruct (verify k (TLS_PREFIX ++ spki) sg) eqn:V2.
+    - pose proof (SM _ _ _ _ V V2) as E. apply app_inv_head in E. congruence.
+    - destruct e; reflexivity.
+  Qed.
+
   (* ---------------- binding to the session's static key ---------------- *)
   Section Binding.
     (* the unforgeability idealisation: a signature is valid for one message only.  This is
@@ -389,6 +435,59 @@ Proof.
   change (1 =? 1) with true. change (2 =? 2) with true. cbn iota.
   rewrite (pchunk_app (len key) key) by (try exact Lk; unfold len; lia).
   cbn [p_sig].
+  rewrite dec_payload_step, pkey_18.
+  change (2 =? 1) with false. change (2 =? 2) with true. cbn iota.
+  rewrite (pchunk_all (len sg) sg) by (try exact Ls; unfold len; lia).
+  cbn [p_key]. rewrite dec_payload_nil. reflexivity.
+Qed.
+
+(* duplicate fields: the last one wins (prost replaces an optional bytes field) *)
+Lemma decode_payload_last_key_wins k1 k2 sg :
+  len k1 < 128 -> len k2 < 128 -> len sg < 128 ->
+  decode_payload ([10; len k1] ++ k1 ++ [10; len k2] ++ k2 ++ [18; len sg] ++ sg)
+  = Some (mkPayload (Some k2) (Some sg)).
+Proof.
+  intros L1 L2 Ls. unfold decode_payload.
+  set (l := [10; len k1] ++ k1 ++ [10; len k2] ++ k2 ++ [18; len sg] ++ sg).
+  generalize (fuel_for l) at 2. intros sf.
+  assert (F : exists f, fuel_for l = S (S (S f))).
+  { unfold fuel_for. subst l. cbn [app length].
+    match goal with |- context [S (S (length ?x))] => generalize (length x) end.
+    intros n. exists (2 * n + 3)%nat. lia. }
+  destruct F as [f ->]. subst l. cbn [app].
+  rewrite dec_payload_step, pkey_10.
+  change (1 =? 1) with true. change (2 =? 2) with true. cbn iota.
+  rewrite (pchunk_app (len k1) k1) by (try exact L1; unfold len; lia). cbn [p_sig app].
+  rewrite dec_payload_step, pkey_10.
+  change (1 =? 1) with true. change (2 =? 2) with true. cbn iota.
+  rewrite (pchunk_app (len k2) k2) by (try exact L2; unfold len; lia). cbn [p_sig app].
+  rewrite dec_payload_step, pkey_18.
+  change (2 =? 1) with false. change (2 =? 2) with true. cbn iota.
+  rewrite (pchunk_all (len sg) sg) by (try exact Ls; unfold len; lia).
+  cbn [p_key]. rewrite dec_payload_nil. reflexivity.
+Qed.
+
+(* an unknown varint field (here tag 3) between the two known ones is skipped *)
+Lemma decode_payload_unknown_field_skipped key v sg :
+  len key < 128 -> v < 128 -> len sg < 128 ->
+  decode_payload ([10; len key] ++ key ++ [24; v] ++ [18; len sg] ++ sg)
+  = Some (mkPayload (Some key) (Some sg)).
+Proof.
+  intros Lk Lv Ls. unfold decode_payload.
+  set (l := [10; len key] ++ key ++ [24; v] ++ [18; len sg] ++ sg).
+  assert (F : exists f, fuel_for l = S (S (S f))).
+  { unfold fuel_for. subst l. cbn [app length].
+    match goal with |- context [S (S (length ?x))] => generalize (length x) end.
+    intros n. exists (2 * n + 3)%nat. lia. }
+  destruct F as [f F]. rewrite F at 1. rewrite F. subst l. cbn [app].
+  rewrite dec_payload_step, pkey_10.
+  change (1 =? 1) with true. change (2 =? 2) with true. cbn iota.
+  rewrite (pchunk_app (len key) key) by (try exact Lk; unfold len; lia). cbn [p_sig app].
+  rewrite dec_payload_step.
+  rewrite (pkey_small 24) by (try lia; vm_compute; discriminate).
+  change (24 / 8) with 3. change (24 mod 8) with 0.
+  change (3 =? 1) with false. change (3 =? 2) with false. change (3 =? 4) with false. cbn iota.
+  cbn [skip RECURSION_LIMIT]. rewrite (pvarint_small v) by exact Lv.
   rewrite dec_payload_step, pkey_18.
   change (2 =? 1) with false. change (2 =? 2) with true. cbn iota.
   rewrite (pchunk_all (len sg) sg) by (try exact Ls; unfold len; lia).
@@ -704,7 +803,8 @@ Section Transcript.
     no_forgery D L a -> a2 a = DMsg m ->
     dec (KDF (dks1 D m)) (H (dtr1 D m)) (m2_s m) = Some s ->
     dec (KDF (dks2 D m s)) (H (dtr2 D m)) (m2_p m) = Some pl ->
-    a1 a = DMsg (dmsg1 D) /\ m = lmsg2 L (dmsg1 D) /\ s = pubk (sta L) /\ pl = pay L.
+    a1 a = DMsg (dmsg1 D) /\ m = lmsg2 L (dmsg1 D) /\ s = pubk (sta L) /\ pl = pay L /\
+    pro D = pro L.
   Proof.
     intros [NF _] A2 D1 D2. apply dec_some in D1. apply dec_some in D2.
     pose proof (NF m (m2_s m) _ _ _ A2 (or_introl eq_refl) D1 (or_introl eq_refl)) as I1.
@@ -713,14 +813,14 @@ Section Transcript.
     destruct d1 as [e1 pl1]. destruct m as [e cs cp]. cbn [m2_e m2_s m2_p] in *.
     (* first ciphertext *)
     assert (S1 : e1 = pubk (eph D) /\ pl1 = [] /\ e = pubk (eph L) /\ s = pubk (sta L) /\
-                 cs = lcs2 L (mkM1 e1 pl1)).
+                 cs = lcs2 L (mkM1 e1 pl1) /\ pro D = pro L).
     { destruct I1 as [I|[I|[]]]; pose proof D1 as E; rewrite <- I in E at 1.
       - unfold l_cs2 in E. injection E as _ Eh Es.
         apply H_inj in Eh. unfold l_tr1, d_tr1 in Eh. cbn [m1_e m1_pl m2_e] in Eh.
-        injection Eh as E1 E2 E3. repeat split; auto.
+        injection Eh as E0 E1 E2 E3. repeat split; auto.
       - unfold l_cp2 in E. injection E as _ Eh _. apply H_len in Eh.
         unfold l_tr2, l_tr1, d_tr1 in Eh. rewrite app_length in Eh. cbn [length] in Eh. lia. }
-    destruct S1 as (-> & -> & -> & -> & Ecs).
+    destruct S1 as (-> & -> & -> & -> & Ecs & Epro).
     assert (S2 : pl = pay L /\ cp = lcp2 L (mkM1 (pubk (eph D)) [])).
     { destruct I2 as [I|[I|[]]]; pose proof D2 as E; rewrite <- I in E at 1.
       - unfold l_cs2 in E. injection E as _ Eh _. apply H_len in Eh.
@@ -734,12 +834,13 @@ Section Transcript.
   Lemma dialer_sent3 D L a m3 :
     no_forgery D L a -> fst (rund D a) = Some m3 ->
     a1 a = DMsg (dmsg1 D) /\ a2 a = DMsg (lmsg2 L (dmsg1 D)) /\
-    m3 = mkM3 (dcs3 D (lmsg2 L (dmsg1 D)) (pubk (sta L))) (dcp3 D (lmsg2 L (dmsg1 D)) (pubk (sta L))).
+    m3 = mkM3 (dcs3 D (lmsg2 L (dmsg1 D)) (pubk (sta L))) (dcp3 D (lmsg2 L (dmsg1 D)) (pubk (sta L))) /\
+    pro D = pro L.
   Proof.
     intros NF. unfold run_d, d_run. destruct (a2 a) as [m| |] eqn:A2; try discriminate.
     destruct (dec (KDF (dks1 D m)) (H (dtr1 D m)) (m2_s m)) as [s|] eqn:D1; [|discriminate].
     destruct (dec (KDF (dks2 D m s)) (H (dtr2 D m)) (m2_p m)) as [pl|] eqn:D2; [|discriminate].
-    destruct (dialer_reads_authentic D L a m s pl NF A2 D1 D2) as (A1 & -> & -> & ->).
+    destruct (dialer_reads_authentic D L a m s pl NF A2 D1 D2) as (A1 & -> & -> & -> & Epro).
     destruct (decode_payload (pay L)); [|discriminate]. cbn [fst]. intros [= <-]. auto.
   Qed.
 
@@ -753,16 +854,29 @@ Section Transcript.
     intros NF. unfold run_d, d_run. destruct (a2 a) as [m| |] eqn:A2; try discriminate.
     destruct (dec (KDF (dks1 D m)) (H (dtr1 D m)) (m2_s m)) as [s|] eqn:D1; [|discriminate].
     destruct (dec (KDF (dks2 D m s)) (H (dtr2 D m)) (m2_p m)) as [pl|] eqn:D2; [|discriminate].
-    destruct (dialer_reads_authentic D L a m s pl NF A2 D1 D2) as (A1 & -> & -> & ->).
+    destruct (dialer_reads_authentic D L a m s pl NF A2 D1 D2) as (A1 & -> & -> & -> & _).
     unfold Model.verify_identity. destruct (decode_payload (pay L)) as [pp|]; [|discriminate].
     cbn [snd]. intros O. repeat split; auto.
     destruct (check_dialed (dialed_of D) (verify_payload on_curve verify pp (pubk (sta L)))); cbn [outcome_of] in O;
       [congruence|discriminate].
   Qed.
 
+  (* ... and that both sides used the same prologue *)
+  Lemma dialer_prologue D L a p :
+    no_forgery D L a -> snd (rund D a) = OAccept p -> pro D = pro L.
+  Proof.
+    intros NF. unfold run_d, d_run. destruct (a2 a) as [m| |] eqn:A2; try discriminate.
+    destruct (dec (KDF (dks1 D m)) (H (dtr1 D m)) (m2_s m)) as [s|] eqn:D1; [|discriminate].
+    destruct (dec (KDF (dks2 D m s)) (H (dtr2 D m)) (m2_p m)) as [pl|] eqn:D2; [|discriminate].
+    destruct (dialer_reads_authentic D L a m s pl NF A2 D1 D2) as (_ & _ & _ & _ & E). intros _. exact E.
+  Qed.
+
   Lemma ltr3_dtr3 D L :
-    ltr3 L (dmsg1 D) = dtr3 D (lmsg2 L (dmsg1 D)).
-  Proof. reflexivity. Qed.
+    pro D = pro L -> ltr3 L (dmsg1 D) = dtr3 D (lmsg2 L (dmsg1 D)).
+  Proof.
+    intros E. unfold l_tr3, l_tr2, l_tr1, d_tr3, d_tr2, d_tr1. cbn [m1_e m1_pl d_msg1 m2_e m2_s m2_p l_msg2].
+    rewrite E. reflexivity.
+  Qed.
 
   (* listener: accepting means that all three messages were delivered untouched and that the
      verdict is the decision layer's verdict on the dialer's genuine payload and static key *)
@@ -782,7 +896,7 @@ Section Transcript.
     pose proof (NF2 d1 m (m3_s m) _ _ _ A1 A3 (or_introl eq_refl) D1 (or_introl eq_refl)) as I1.
     pose proof (NF2 d1 m (m3_p m) _ _ _ A1 A3 (or_intror eq_refl) D2 (or_intror eq_refl)) as I2.
     unfold d_cts in I1, I2. destruct (fst (rund D a)) as [m3|] eqn:S3; try contradiction.
-    destruct (dialer_sent3 D L a m3 NF S3) as (A1' & A2 & ->).
+    destruct (dialer_sent3 D L a m3 NF S3) as (A1' & A2 & -> & Epro).
     rewrite A1 in A1'. injection A1' as ->. cbn [m3_s m3_p] in I1, I2.
     set (m2 := lmsg2 L (dmsg1 D)) in *. set (sL := pubk (sta L)) in *.
     destruct m as [cs cp]. cbn [m3_s m3_p] in *.
@@ -790,13 +904,13 @@ Section Transcript.
     { destruct I1 as [I|[I|[]]]; pose proof D1 as E; rewrite <- I in E at 1.
       - unfold d_cs3 in E. split; [congruence | symmetry; exact I].
       - unfold d_cp3 in E. injection E as _ Eh _. apply H_len in Eh.
-        unfold d_tr4 in Eh. rewrite app_length in Eh. subst m2. rewrite <- ltr3_dtr3 in Eh.
+        unfold d_tr4 in Eh. rewrite app_length in Eh. subst m2. rewrite <- (ltr3_dtr3 D L Epro) in Eh.
         cbn [length] in Eh. lia. }
     destruct S1 as (-> & ->).
     assert (S2 : pl = pay D /\ cp = dcp3 D m2 sL).
     { destruct I2 as [I|[I|[]]]; pose proof D2 as E; rewrite <- I in E at 1.
       - unfold d_cs3 in E. injection E as _ Eh _. apply H_len in Eh.
-        unfold l_tr4 in Eh. rewrite app_length in Eh. subst m2. rewrite <- ltr3_dtr3 in Eh.
+        unfold l_tr4 in Eh. rewrite app_length in Eh. subst m2. rewrite <- (ltr3_dtr3 D L Epro) in Eh.
         cbn [length] in Eh. lia.
       - unfold d_cp3 in E. split; [congruence | symmetry; exact I]. }
     destruct S2 as (-> & ->).
@@ -857,49 +971,62 @@ Section Transcript.
     mkAttack (DMsg (dmsg1 D)) (DMsg m2)
              (match fst (drun D (DMsg m2)) with Some m3 => DMsg m3 | None => DShort end).
 
+  Lemma tr1_agree D L : pro D = pro L -> dtr1 D (lmsg2 L (dmsg1 D)) = ltr1 L (dmsg1 D).
+  Proof.
+    intros E. unfold d_tr1, l_tr1. cbn [m1_e m1_pl d_msg1 m2_e l_msg2]. rewrite E. reflexivity.
+  Qed.
+
+  Lemma tr2_agree D L : pro D = pro L -> dtr2 D (lmsg2 L (dmsg1 D)) = ltr2 L (dmsg1 D).
+  Proof. intros E. unfold d_tr2, l_tr2. rewrite (tr1_agree D L E). reflexivity. Qed.
+
   Lemma honest_dialer D L :
+    pro D = pro L ->
     snd (rund D (forward D L)) =
     outcome_of (check_dialed (dialed_of D) (videntity (pay L) (pubk (sta L)))).
   Proof.
+    intros EP. pose proof (tr1_agree D L EP) as T1. pose proof (tr2_agree D L EP) as T2.
     unfold run_d, forward. cbn [a2]. unfold d_run.
-    set (m2 := lmsg2 L (dmsg1 D)).
+    set (m2 := lmsg2 L (dmsg1 D)) in *.
     assert (K1 : KDF (dks1 D m2) = KDF (l_ks1 dh L (dmsg1 D))).
     { unfold d_ks1, l_ks1. subst m2. cbn [m2_e l_msg2 m1_e d_msg1]. rewrite dh_comm. reflexivity. }
     assert (E1 : m2_s m2 = Ct (KDF (dks1 D m2)) (H (dtr1 D m2)) (pubk (sta L))).
-    { rewrite K1. reflexivity. }
+    { rewrite K1, T1. reflexivity. }
     rewrite E1 at 1. rewrite dec_ct.
     assert (K2 : KDF (dks2 D m2 (pubk (sta L))) = KDF (lks2 L (dmsg1 D))).
     { unfold d_ks2, l_ks2, d_ks1, l_ks1. subst m2. cbn [m2_e l_msg2 m1_e d_msg1].
       rewrite (dh_comm (eph D) (eph L)), (dh_comm (eph D) (sta L)). reflexivity. }
     assert (E2 : m2_p m2 = Ct (KDF (dks2 D m2 (pubk (sta L)))) (H (dtr2 D m2)) (pay L)).
-    { rewrite K2. reflexivity. }
+    { rewrite K2, T2. reflexivity. }
     rewrite E2 at 1. rewrite dec_ct.
     unfold Model.verify_identity. destruct (decode_payload (pay L)); cbn [snd]; [reflexivity|].
     destruct (dialed_of D); reflexivity.
   Qed.
 
   Lemma honest_listener D L :
+    pro D = pro L ->
     decode_payload (pay L) <> None ->
     runl L (forward D L) =
     outcome_of (check_dialed (dialed_of L) (videntity (pay D) (pubk (sta D)))).
   Proof.
-    intros PL. unfold run_l, forward. cbn [a1 a3]. unfold d_run.
-    set (m1 := dmsg1 D). set (m2 := lmsg2 L m1).
+    intros EP PL. pose proof (tr1_agree D L EP) as T1. pose proof (tr2_agree D L EP) as T2.
+    pose proof (ltr3_dtr3 D L EP) as T3.
+    unfold run_l, forward. cbn [a1 a3]. unfold d_run.
+    set (m1 := dmsg1 D) in *. set (m2 := lmsg2 L m1) in *.
     assert (K1 : KDF (dks1 D m2) = KDF (l_ks1 dh L m1)).
     { unfold d_ks1, l_ks1. subst m2 m1. cbn [m2_e l_msg2 m1_e d_msg1]. rewrite dh_comm. reflexivity. }
     assert (E1 : m2_s m2 = Ct (KDF (dks1 D m2)) (H (dtr1 D m2)) (pubk (sta L))).
-    { rewrite K1. reflexivity. }
+    { rewrite K1, T1. reflexivity. }
     rewrite E1 at 1. rewrite dec_ct.
     assert (K2 : KDF (dks2 D m2 (pubk (sta L))) = KDF (lks2 L m1)).
     { unfold d_ks2, l_ks2, d_ks1, l_ks1. subst m2 m1. cbn [m2_e l_msg2 m1_e d_msg1].
       rewrite (dh_comm (eph D) (eph L)), (dh_comm (eph D) (sta L)). reflexivity. }
     assert (E2 : m2_p m2 = Ct (KDF (dks2 D m2 (pubk (sta L)))) (H (dtr2 D m2)) (pay L)).
-    { rewrite K2. reflexivity. }
+    { rewrite K2, T2. reflexivity. }
     rewrite E2 at 1. rewrite dec_ct.
     destruct (decode_payload (pay L)) as [pp|]; [|congruence]. cbn [fst].
     unfold l_run2. cbn [m3_s m3_p].
     assert (E3 : dcs3 D m2 (pubk (sta L)) = Ct (KDF (lks2 L m1)) (H (ltr3 L m1)) (pubk (sta D))).
-    { unfold d_cs3. rewrite K2. reflexivity. }
+    { unfold d_cs3. rewrite K2, T3. reflexivity. }
     rewrite E3 at 1. rewrite dec_ct.
     assert (K3 : KDF (d_ks3 dh D m2 (pubk (sta L))) = KDF (lks3 L m1 (pubk (sta D)))).
     { unfold d_ks3, l_ks3, d_ks2, l_ks2, d_ks1, l_ks1. subst m2 m1. cbn [m2_e l_msg2 m1_e d_msg1].
@@ -907,8 +1034,73 @@ Section Transcript.
       reflexivity. }
     set (h4 := H (ltr4 L m1 (mkM3 (dcs3 D m2 (pubk (sta L))) (dcp3 D m2 (pubk (sta L)))))).
     assert (E4 : dcp3 D m2 (pubk (sta L)) = Ct (KDF (lks3 L m1 (pubk (sta D)))) h4 (pay D)).
-    { unfold d_cp3. rewrite K3. reflexivity. }
+    { unfold d_cp3. rewrite K3. subst h4. unfold l_tr4, d_tr4. rewrite T3. reflexivity. }
     rewrite E4. rewrite dec_ct. reflexivity.
+  Qed.
+
+  (* ---------------- the order of events in XX ---------------- *)
+  (* the dialer finishes first: with message 3 withheld it has already accepted (it returns from
+     handshake() after WRITING message 3) while the listener ends with an I/O error *)
+  Definition withhold3 (D L : party) : attack :=
+    mkAttack (DMsg (dmsg1 D)) (DMsg (lmsg2 L (dmsg1 D))) DShort.
+
+  Lemma dialer_finishes_first D L :
+    pro D = pro L ->
+    no_forgery D L (withhold3 D L) /\
+    snd (rund D (withhold3 D L)) =
+      outcome_of (check_dialed (dialed_of D) (videntity (pay L) (pubk (sta L)))) /\
+    runl L (withhold3 D L) = OIo.
+  Proof.
+    intros EP. split; [|split].
+    - split.
+      + intros m c k h pt A2 C _ _. unfold withhold3 in A2. cbn [a2] in A2. injection A2 as <-.
+        unfold l_cts, withhold3. cbn [a1 l_msg2 m2_s m2_p] in *. destruct C as [-> | ->]; cbn; auto.
+      + intros d1 m c k h pt _ A3. unfold withhold3 in A3. cbn [a3] in A3. discriminate.
+    - exact (honest_dialer D L EP).
+    - reflexivity.
+  Qed.
+
+  (* the dialer writes message 3 — its own identity payload, readable by whoever holds the static
+     key it has just been given — BEFORE it checks the listener's signature: whenever the payload
+     of message 2 decodes, message 3 is sent whatever the verdict *)
+  Lemma dialer_writes_3_before_verdict D m s pl pp :
+    dec (KDF (dks1 D m)) (H (dtr1 D m)) (m2_s m) = Some s ->
+    dec (KDF (dks2 D m s)) (H (dtr2 D m)) (m2_p m) = Some pl ->
+    decode_payload pl = Some pp ->
+    drun D (DMsg m) =
+      (Some (mkM3 (dcs3 D m s) (dcp3 D m s)),
+       outcome_of (check_dialed (dialed_of D) (verify_payload on_curve verify pp s))).
+  Proof. intros D1 D2 P. unfold d_run. rewrite D1, D2, P. reflexivity. Qed.
+
+  (* what the listener has learnt when it writes message 2: nothing about the dialer but the
+     ephemeral key — its answer is the same for all dialers that sent the same message 1 *)
+  Lemma listener_answer_ignores_identity D D' L :
+    dmsg1 D = dmsg1 D' -> lmsg2 L (dmsg1 D) = lmsg2 L (dmsg1 D').
+  Proof. intros ->. reflexivity. Qed.
+
+  (* the listener accepts last, and only if the dialer got as far as writing message 3 *)
+  Lemma listener_prologue D L a p :
+    no_forgery D L a -> runl L a = OAccept p -> pro D = pro L /\ fst (rund D a) <> None.
+  Proof.
+    intros NF. unfold run_l, l_run2.
+    destruct (a1 a) as [d1| |] eqn:A1; try discriminate.
+    destruct (a3 a) as [m| |] eqn:A3; try discriminate.
+    destruct (dec (KDF (lks2 L d1)) (H (ltr3 L d1)) (m3_s m)) as [s|] eqn:D1; [|discriminate].
+    intros _. apply dec_some in D1. pose proof NF as [_ NF2].
+    pose proof (NF2 d1 m (m3_s m) _ _ _ A1 A3 (or_introl eq_refl) D1 (or_introl eq_refl)) as I1.
+    unfold d_cts in I1. destruct (fst (rund D a)) as [m3|] eqn:S3; try contradiction.
+    destruct (dialer_sent3 D L a m3 NF S3) as (_ & _ & _ & Epro). split; [exact Epro|discriminate].
+  Qed.
+
+  (* the WebRTC prologue binds the handshake to the two DTLS fingerprints: with different
+     prologues neither side accepts, whatever is delivered *)
+  Lemma prologue_binds D L a :
+    no_forgery D L a -> pro D <> pro L ->
+    (forall p, snd (rund D a) <> OAccept p) /\ (forall p, runl L a <> OAccept p).
+  Proof.
+    intros NF NE. split; intros p O.
+    - exact (NE (dialer_prologue D L a p NF O)).
+    - destruct (listener_prologue D L a p NF O) as [E _]. exact (NE E).
   Qed.
 
   (* forwarding everything is not a forgery: the hypothesis of the theorems is satisfiable *)
